@@ -21,6 +21,7 @@ pub fn info() -> PropInfo {
             "_sd_alg below the top level and non-string _sd_alg are outside the asserted domain",
         ],
         needs_mock: false,
+        rounds: 4,
     }
 }
 
